@@ -194,6 +194,14 @@ def jobs(tier):
     return out
 
 
+
+# heavy shards are split into disjoint parts of their path tree (run in parallel; together exactly the unsplit exploration)
+def slices(job, tier):
+    h, a = job
+    if h == 'merge' and not a[7]:
+        return 4
+    return 3 if h == 'fast_vs_general' else 1
+
 OPTS = {'quick': {'time_budget': 60}, 'thorough': {'time_budget': 900}}
 
 META = {
